@@ -218,10 +218,13 @@ func MarshalToFunc[T any](fn func(*jsontext.Encoder, T) error) *Marshalers {
 		fnc: func(enc *jsontext.Encoder, va addressableValue, mo *jsonopts.Struct) error {
 			xe := export.Encoder(enc)
 			prevDepth, prevLength := xe.Tokens.DepthLength()
+			prevMinDepth := xe.Tokens.MinDepth
+			xe.Tokens.MinDepth = prevDepth // forbid ending any JSON object or array begun by the caller
 			xe.Flags.Set(jsonflags.WithinArshalCall | 1)
 			v, _ := reflect.TypeAssert[T](va.castTo(t))
 			err := fn(enc, v)
 			xe.Flags.Set(jsonflags.WithinArshalCall | 0)
+			xe.Tokens.MinDepth = prevMinDepth
 			currDepth, currLength := xe.Tokens.DepthLength()
 			if err == nil && (prevDepth != currDepth || prevLength+1 != currLength) {
 				err = errNonSingularValue
@@ -305,10 +308,13 @@ func UnmarshalFromFunc[T any](fn func(*jsontext.Decoder, T) error) *Unmarshalers
 			if prevDepth == 1 && xd.AtEOF() {
 				return io.EOF // check EOF early to avoid fn reporting an EOF
 			}
+			prevMinDepth := xd.Tokens.MinDepth
+			xd.Tokens.MinDepth = prevDepth // forbid ending any JSON object or array begun by the caller
 			xd.Flags.Set(jsonflags.WithinArshalCall | 1)
 			v, _ := reflect.TypeAssert[T](va.castTo(t))
 			err := fn(dec, v)
 			xd.Flags.Set(jsonflags.WithinArshalCall | 0)
+			xd.Tokens.MinDepth = prevMinDepth
 			currDepth, currLength := xd.Tokens.DepthLength()
 			if err == nil && (prevDepth != currDepth || prevLength+1 != currLength) {
 				err = errNonSingularValue
